@@ -4,8 +4,9 @@ from . import kernlib
 
 RULE = ("every program TLC enumerates within the bounds (value-carrying timeouts, shared events succeeded/failed by other processes, "
         "joins on children that return or raise, several waiters, catching and non-catching yields, double triggers, yields of processed "
-        "events) replayed on the real kernel, logs compared; plus generated larger programs validated by TLC. non-trivial as in C01")
+        "events, failures of operands of any_of/all_of conditions before and after the condition is decided) replayed on the real kernel, logs compared; plus generated larger programs validated by TLC. non-trivial as in C01")
 KINDS = {"sleep": 4, "timeout": 1, "event": 3, "succeed": 3, "fail": 3, "spawn": 2, "yield": 5, "raise": 1, "return": 0.5}
+CKINDS = dict(KINDS, cond=4, timeout=3, fail=4)
 
 
 def run(ctx, replay=None):
@@ -16,6 +17,8 @@ def run(ctx, replay=None):
         kernlib.gen_validate(ctx, 1500, KINDS)
         # waiters of an event that is also the target of run(until=event): registered before and after run() was called
         kernlib.gen_validate(ctx, 1000, KINDS, plan_kinds={"run": 1, "runev": 3}, max_plan=4, label="generated-run-until-event")
+        # failures that reach a waiter through a condition -- or reach nobody because the condition is already decided
+        kernlib.gen_validate(ctx, 800, CKINDS, label="generated-conditions", orphan_finding="F19b")
     else:
         kernlib.mc_replay(ctx, "KernelMC_c02.cfg", {'"spawn", "yield"': '"spawn", "spawnnp", "yield"'}, label="KernelMC/c02 2x3 +unprobed spawns")
         kernlib.mc_replay(ctx, "KernelMC_c02.cfg", {"MaxProc = 2": "MaxProc = 3", "MaxOps = 3": "MaxOps = 2", "MaxEv = 8": "MaxEv = 9"},
@@ -26,6 +29,7 @@ def run(ctx, replay=None):
         kernlib.gen_validate(ctx, 20000, KINDS)
         kernlib.gen_validate(ctx, 5000, KINDS, max_procs=6, max_ops=8, max_events=40, label="generated-large")
         kernlib.gen_validate(ctx, 15000, KINDS, plan_kinds={"run": 1, "runev": 3}, max_plan=4, label="generated-run-until-event")
+        kernlib.gen_validate(ctx, 10000, CKINDS, label="generated-conditions", orphan_finding="F19b")
     return ctx.finish(RULE)
 
 
